@@ -414,3 +414,13 @@ class MultiRelationLink(IRelationLink[TCircuitOperation], Generic[TCircuitOperat
     def __repr__(self):
         return f"<RelationLinks>{[node.__class__.__name__ for node in self._reference_nodes]}[{self._relation_type.name}, {self._relation_to_group.name}]"
     # endregion
+
+
+def clear_start_time_cache() -> None:
+    """
+    Invalidates the memoized start times of all relation links.
+    Memoized values depend on the durations and relations of all preceding operations.
+    Required whenever circuit structure, relation links or (registry) durations change.
+    """
+    RelationLink.get_start_time.cache_clear()
+    MultiRelationLink.get_start_time.cache_clear()
